@@ -43,6 +43,7 @@ type field struct {
 	// Optional: a shape goverter may not support on the tree under test (arrays as targets);
 	// if goverter refuses the world it is rebuilt without the optional fields.
 	Optional bool
+	OptKind  string // which optional shape: "array" | "any"
 	Name     string // source field name
 	TName    string // target field name (C07 renames)
 	N        *node
@@ -87,6 +88,10 @@ type Spec struct {
 	Aliases    bool
 	aliasOf    map[string]string
 	aliasOrder []string
+	// TypedErrLeaf: optional shape (goverter refuses it today): the extend function of this leaf
+	// returns a concrete error type (*verifsim.InjectedError) instead of error, and a declared
+	// method has exactly its signature (goverter then delegates to the function). 0 = none.
+	TypedErrLeaf int
 	// MatchIgnoreCase: goverter:matchIgnoreCase on the converter (C07 worlds); some fields are
 	// then spelled differently on the two sides.
 	MatchIgnoreCase bool
@@ -352,6 +357,15 @@ func NewSpec(seed uint64, prop string) *Spec {
 		root := s.Roots[0]
 		root.Fields = append(root.Fields, s.mkField(len(root.Fields), s.genLeaf(), root))
 	}
+	if prop == "C07" && s.Seed%4 == 1 {
+		for _, id := range sortedIDs(s.Leaves) {
+			if s.Leaves[id].Mode == "extend" {
+				s.TypedErrLeaf = id
+				s.HasOptional = true
+				break
+			}
+		}
+	}
 	return s
 }
 
@@ -393,7 +407,7 @@ func (s *Spec) genStruct(depth int) *node {
 	if s.Prop == "C04" && s.rng.IntN(6) == 0 {
 		// optional: an interface-typed field (any -> any), which goverter refuses today; should
 		// it ever convert such positions by itself, the dynamic value must not be shared
-		n.Fields = append(n.Fields, &field{Optional: true, Name: fmt.Sprintf("F%d", len(n.Fields)), TName: fmt.Sprintf("F%d", len(n.Fields)), N: &node{Kind: "basic", Basic: "any"}})
+		n.Fields = append(n.Fields, &field{Optional: true, OptKind: "any", Name: fmt.Sprintf("F%d", len(n.Fields)), TName: fmt.Sprintf("F%d", len(n.Fields)), N: &node{Kind: "basic", Basic: "any"}})
 		s.HasOptional = true
 	}
 	if s.Prop == "C04" && s.rng.IntN(8) == 0 {
@@ -509,7 +523,7 @@ func (s *Spec) genStruct(depth int) *node {
 				el = &node{Kind: "basic", Basic: basics[s.rng.IntN(len(basics))]}
 			}
 			arr := &node{Kind: "array", ID: 2 + s.rng.IntN(2), Elem: el}
-			n.Fields = append(n.Fields, &field{Optional: true, Name: fmt.Sprintf("F%d", len(n.Fields)), TName: fmt.Sprintf("F%d", len(n.Fields)), N: arr})
+			n.Fields = append(n.Fields, &field{Optional: true, OptKind: "array", Name: fmt.Sprintf("F%d", len(n.Fields)), TName: fmt.Sprintf("F%d", len(n.Fields)), N: arr})
 			s.HasOptional = true
 		}
 	}
@@ -875,8 +889,14 @@ func (s *Spec) TypesSource() string {
 		if li.Mode == "extendconv" {
 			arg = "c Converter, " + arg
 		}
-		fmt.Fprintf(&b, "func %s(%s) (TLeaf%d, error) {\n\tif verifsim.Poisoned(%q, s.ID) {\n\t\treturn TLeaf%d{}, verifsim.Inject(%q, s.ID)\n\t}\n\treturn TLeaf%d{ID: s.ID, Mark: %q + s.V}, nil\n}\n",
-			li.Fn, arg, id, li.Fn, id, li.Fn, id, li.Fn+":")
+		if id == s.TypedErrLeaf {
+			// a concrete error type: nil on success is a typed nil pointer
+			fmt.Fprintf(&b, "func %s(%s) (TLeaf%d, *verifsim.InjectedError) {\n\tif verifsim.Poisoned(%q, s.ID) {\n\t\treturn TLeaf%d{}, verifsim.Inject(%q, s.ID).(*verifsim.InjectedError)\n\t}\n\treturn TLeaf%d{ID: s.ID, Mark: %q + s.V}, nil\n}\n",
+				li.Fn, arg, id, li.Fn, id, li.Fn, id, li.Fn+":")
+		} else {
+			fmt.Fprintf(&b, "func %s(%s) (TLeaf%d, error) {\n\tif verifsim.Poisoned(%q, s.ID) {\n\t\treturn TLeaf%d{}, verifsim.Inject(%q, s.ID)\n\t}\n\treturn TLeaf%d{ID: s.ID, Mark: %q + s.V}, nil\n}\n",
+				li.Fn, arg, id, li.Fn, id, li.Fn, id, li.Fn+":")
+		}
 		// infallible twin
 		targ := fmt.Sprintf("s SLeaf%d", id)
 		if li.Mode == "extendconv" {
@@ -988,6 +1008,10 @@ func (s *Spec) methods(twin bool) []methodSpec {
 		if len(doc) > 0 || isRoot || n.MethodSrc || n.Ctor {
 			ms = append(ms, methodSpec{Name: fmt.Sprintf("Conv%d", id), In: fmt.Sprintf("S%d", id), Out: out(fmt.Sprintf("T%d", id)), Doc: doc})
 		}
+	}
+	if s.TypedErrLeaf != 0 {
+		// a declared method with exactly the signature of the extend function
+		ms = append(ms, methodSpec{Name: fmt.Sprintf("LeafDecl%d", s.TypedErrLeaf), In: fmt.Sprintf("SLeaf%d", s.TypedErrLeaf), Out: out(fmt.Sprintf("TLeaf%d", s.TypedErrLeaf))})
 	}
 	for i := range ms {
 		if s.MethodSkip[ms[i].Name] {
@@ -1302,7 +1326,9 @@ func (s *Spec) genShared(depth int) *node {
 		}
 		n.Fields = append(n.Fields, &field{Name: fmt.Sprintf("H%d", i), TName: fmt.Sprintf("H%d", i), N: fn})
 	}
-	if r.IntN(2) == 0 {
+	if r.IntN(2) == 0 && !(s.Aliases && s.Seed%2 == 0) {
+		// (half of the alias worlds stay without goverter:ignoreUnexported, which switches
+		// whole-struct shortcuts off)
 		// internal state of the type: unexported reference fields (like big.Int, bytes.Buffer);
 		// generated code outside package w cannot touch them → goverter:ignoreUnexported
 		n.Fields = append(n.Fields,
@@ -1315,9 +1341,15 @@ func (s *Spec) genShared(depth int) *node {
 }
 
 // StripOptional removes the optional fields (returns false when there was nothing to strip).
-func (s *Spec) StripOptional() bool {
+func (s *Spec) StripOptional() bool { return s.StripOptionalKind("") }
+
+// StripOptionalKind removes the optional fields of one kind ("" = all kinds).
+func (s *Spec) StripOptionalKind(kind string) bool {
 	if !s.HasOptional {
 		return false
+	}
+	if kind == "" || kind == "typederr" {
+		s.TypedErrLeaf = 0
 	}
 	for _, n := range s.Structs {
 		var getter *field
@@ -1326,7 +1358,7 @@ func (s *Spec) StripOptional() bool {
 		}
 		var keep []*field
 		for _, f := range n.Fields {
-			if !f.Optional {
+			if !f.Optional || (kind != "" && f.OptKind != kind) {
 				if f == getter {
 					n.GetterField = len(keep)
 				}
@@ -1335,6 +1367,13 @@ func (s *Spec) StripOptional() bool {
 		}
 		n.Fields = keep
 	}
-	s.HasOptional = false
+	s.HasOptional = s.TypedErrLeaf != 0
+	for _, n := range s.Structs {
+		for _, f := range n.Fields {
+			if f.Optional {
+				s.HasOptional = true
+			}
+		}
+	}
 	return true
 }
